@@ -66,6 +66,15 @@ pub fn scan_programs(thorough: bool) -> Vec<Program> {
             (vec![Op::Delete { k: 0, ts: 0 }], vec![ins(0, 3)]),
             (vec![Op::Delete { k: 0, ts: 0 }], vec![Op::Incr { k: 0, delta: 1, ts: 0, ttl: 0 }]),
             (vec![Op::Delete { k: 0, ts: 0 }, Op::Ifa { k: 0, v: 1 }], vec![Op::Ifa { k: 0, v: 3 }]),
+            // explicit timestamps: the writer that legitimately wins was overtaken by a delete + re-creation of the key
+            (
+                vec![Op::Insert { k: 0, v: 3, ts: crate::suites::FUT + 3, ttl: 0, bytes: false }],
+                vec![Op::Delete { k: 0, ts: crate::suites::FUT + 1 }, Op::Insert { k: 0, v: 1, ts: crate::suites::FUT + 2, ttl: 0, bytes: false }],
+            ),
+            (
+                vec![Op::Insert { k: 0, v: 3, ts: crate::suites::FUT + 3, ttl: 0, bytes: true }],
+                vec![Op::Delete { k: 0, ts: crate::suites::FUT + 1 }, Op::Insert { k: 0, v: 1, ts: crate::suites::FUT + 2, ttl: 0, bytes: false }],
+            ),
         ] {
             v.push(Program {
                 name: format!("index-{tier}:{}|{}", a.iter().map(|o| t.describe(o)).collect::<Vec<_>>().join(";"), b.iter().map(|o| t.describe(o)).collect::<Vec<_>>().join(";")),
